@@ -30,6 +30,9 @@ pub struct Opts {
     pub text_format: Option<nickel_lang_core::serialize::ExportFormat>,
     /// append ` TRACE <json array of std.trace lines>` to a successful outcome
     pub capture_trace: bool,
+    /// evaluate to weak head normal form only and print the number of pending contracts of this
+    /// field of the resulting record (observes the deduplication decision of a merge)
+    pub pending_of: Option<String>,
 }
 
 /// `std.trace` sink shared with the caller.
@@ -65,6 +68,7 @@ impl Default for Opts {
             mode: Mode::Export,
             text_format: None,
             capture_trace: false,
+            pending_of: None,
         }
     }
 }
@@ -279,6 +283,26 @@ fn run_inner(src: &str, o: &Opts) -> Outcome {
         }
     }
     set_knobs(o);
+    if let Some(fname) = &o.pending_of {
+        let res = prog.eval();
+        nickel_lang_core::verif_hooks::set_fuel(u64::MAX);
+        return match res {
+            Ok(v) => match v.content_ref() {
+                ValueContentRef::Record(Container::Alloc(r)) => {
+                    match r.fields.iter().find(|(id, _)| id.label() == fname) {
+                        Some((_, f)) => Outcome::Ok(format!(
+                            "{} {}",
+                            f.pending_contracts.len(),
+                            if f.value.is_some() { "val" } else { "noval" }
+                        )),
+                        None => Outcome::Err { class: "NoSuchField".into(), detail: String::new() },
+                    }
+                }
+                _ => Outcome::Err { class: "NotARecord".into(), detail: String::new() },
+            },
+            Err(e) => classify(&e),
+        };
+    }
     let res = match o.mode {
         Mode::Export => prog.eval_full_for_export(),
         Mode::Full => prog.eval_full(),
